@@ -195,7 +195,7 @@ int main(int argc, char **argv) {
         if (thorough) for (int i = 0; i < 5; i++) for (int j = 0; j < 5; j++) for (int k = 0; k < 5; k++) hists.push_back(std::string(1, letters[i]) + letters[j] + letters[k]);
     }
     const long T = 1700000000;
-    struct Sched { int P; std::vector<long> clocks; std::string order; bool same_file; bool threads; };
+    struct Sched { int P; std::vector<long> clocks; std::string order; bool same_file; bool threads; bool grouping_locale; };
     std::vector<Sched> scheds;
     for (bool same : {true, false}) {
         scheds.push_back({2, {T, T}, "AB", same, false});
@@ -207,11 +207,13 @@ int main(int argc, char **argv) {
         if (thorough) { scheds.push_back({3, {T, T + 1, T}, "ABC", same, false}); scheds.push_back({3, {T + 1, T, T}, "CAB", same, false}); }
     }
     scheds.push_back({2, {T, T}, "AB", true, true});     // two threads of ONE process, one after the other, same file
+    scheds.push_back({2, {T, T + 1}, "AB", true, false, true});   // processes whose global C++ locale groups digits
+    scheds.push_back({2, {T, T}, "ABA", true, false, true});
     for (size_t si = 0; si < scheds.size(); si++) for (size_t ha = 0; ha < hists.size(); ha++) {
         long cid = caseno_b++;
         if (!vf::take_case(cid)) continue;
         const Sched &sc = scheds[si];
-        std::string sdesc = std::string(sc.threads ? "threads" : "processes") + " P=" + std::to_string(sc.P) + " clocks=" + vf::jvec(sc.clocks) + " order=" + sc.order + (sc.same_file ? " same file" : " different files") + " hA=" + hists[ha];
+        std::string sdesc = std::string(sc.threads ? "threads" : sc.grouping_locale ? "processes with a digit-grouping global locale" : "processes") + " P=" + std::to_string(sc.P) + " clocks=" + vf::jvec(sc.clocks) + " order=" + sc.order + (sc.same_file ? " same file" : " different files") + " hA=" + hists[ha];
         vf::case_desc(sdesc);
         // the other participants run every history (P=2) or the same history as A rotated (P=3, to bound the product)
         std::vector<std::string> others = sc.P == 2 ? hists : std::vector<std::string>{hists[ha], hists[(ha + 1) % hists.size()], hists[(ha * 7 + 3) % hists.size()]};
@@ -231,7 +233,7 @@ int main(int argc, char **argv) {
                 int pi = who - 'A';
                 std::vector<std::string> ids; std::string err;
                 bool create = created.insert(files[pi]).second;
-                ok = run_helper({files[pi], create ? "create" : "open", std::string(1, (char)('a' + pi)) + std::to_string(step), std::to_string(sc.clocks[pi]), "0", hs[pi]}, ids, err);
+                ok = run_helper({files[pi], create ? "create" : "open", std::string(1, (char)('a' + pi)) + std::to_string(step), std::to_string(sc.clocks[pi]), sc.grouping_locale ? "2" : "0", hs[pi]}, ids, err);
                 step++;
                 if (!ok) { vf::violation("C12|schedule|helper failed", sdesc + " hB=" + hb + " " + err); break; }
                 for (auto &id : ids) {
@@ -244,7 +246,7 @@ int main(int argc, char **argv) {
             vf::count("schedules");
             vf::distinct("schedule_kinds", std::to_string(si) + "|" + std::to_string(hs[0].size()) + std::to_string(hs[1].size()));
             if (!collision.empty())
-                vf::violation(std::string("C12|") + (sc.threads ? "threads of one process" : "separate processes") + "|" + (sc.same_file ? "same file" : "different files") + "|" +
+                vf::violation(std::string("C12|") + (sc.threads ? "threads of one process" : sc.grouping_locale ? "separate processes, digit-grouping global locale" : "separate processes") + "|" + (sc.same_file ? "same file" : "different files") + "|" +
                               (sc.clocks[0] == sc.clocks[1] ? "same clock value" : "different clock values") + "|ids collide",
                               sdesc + " hB=" + hb + ": " + collision.substr(0, 300));
         }
